@@ -97,6 +97,8 @@ static void same(const fsv* v, const ref_t* r)
   size_t want = r->len < CAP ? r->len : CAP;
   C11(vw_len(v->o) == want, "length equals std::string result cut at capacity");
   for (size_t i = 0; i < CAP; i++) if (i < want) C11(vw_byte(v->o, i) == r->d[i], "content equals std::string result cut at capacity");
+  /* c_str() / data() / stream output show the C string in the buffer: it must end where the std::string result ends */
+  if (vw_len(v->o) == want) C11(vw_byte(v->o, want) == 0, "c_str() equals the std::string result cut at capacity (terminated at its length)");
 }
 /* the object must be unchanged (observers) */
 static void unchanged(const fsv* v)
